@@ -80,6 +80,17 @@ func H_C17(v *zzverif.T) {
 		v.Assert("C17.run-succeeds", rerr == nil)
 		v.AssertNoWrites("C17.a-Run-writes-nothing-reachable-from-the-Model-or-package-state")
 	}
+	// a Run that fails inside a node (inputs that pass the signature check but do not fit one another)
+	if v.Has("inputsBad") && len(v.CStrs("inputsBad")) > 0 {
+		in := Tensors{}
+		for _, spec := range v.CStrs("inputsBad") {
+			d := zzParseSpec(v, spec, "bad_")
+			in[d.name] = d.zzTensor()
+		}
+		p = v.Try(func() { _, _ = m.Run(in) })
+		v.Assert("C17.no-panic", !p)
+		v.AssertNoWrites("C17.a-failing-Run-writes-nothing-shared")
+	}
 	// a failing Run (no inputs at all) must not write either
 	if len(inA) > 0 {
 		p = v.Try(func() { _, _ = m.Run(Tensors{}) })
